@@ -317,7 +317,10 @@ func (h *c20Harness) observe() {
 				dev := h.w.Devices["t1"].Snapshot()
 				got := ""
 				if le, ok := dev[p]; ok {
-					got = le.V.Str()
+					got = string(le.V)
+					if i := strings.Index(got, ":"); i >= 0 {
+						got = got[i+1:] // typed notation "s:abc", "i:-5": the device comparison is about the value
+					}
 				}
 				h.c.Count("consistency_device_checked", 1)
 				if got != want {
@@ -422,6 +425,14 @@ func c20Run(c *fw.Case) {
 				case y == 3:
 					vals[p] = "DEVREJECT"
 					m[p] = v3.PathValue{Path: p, Value: *v3.NewTypedValueString("DEVREJECT")}
+				case y == 4 || y == 5:
+					// same magnitude, other sign: the two encodings differ only in the type options
+					n := 5
+					if r.Chance(1, 2) {
+						n = -n
+					}
+					vals[p] = fmt.Sprint(n)
+					m[p] = v3.PathValue{Path: p, Value: *v3.NewTypedValueInt(n, 32)}
 				default:
 					v := fmt.Sprintf("v%d", 1+r.Intn(2))
 					vals[p] = v
